@@ -105,6 +105,9 @@ func cmdVerify(argv []string) {
 	if err := ex.setupGhostsAndSpecs(); err != nil {
 		fatal(res, *out, "ghost/spec declarations: %v", err)
 	}
+	for _, e := range ex.declErrors {
+		res.Errors = append(res.Errors, "declaration: "+e)
+	}
 	// select targets
 	type target struct {
 		key   string
